@@ -743,12 +743,15 @@ bool bloom_filter_alloc<A>::internal_query_and_update(uint64_t h0, uint64_t h1) 
   }
   const uint64_t num_bits = get_capacity();
   bool value_exists = true;
+  uint64_t num_new_bits = 0;
   for (uint16_t i = 1; i <= num_hashes_; i++) {
     const uint64_t hash_index = ((h0 + i * h1) >> 1) % num_bits;
     bool value = bit_array_ops::get_and_set_bit(bit_array_, hash_index);
-    update_num_bits_set(num_bits_set_ + (value ? 0 : 1));
+    if (!value) ++num_new_bits;
     value_exists &= value;
   }
+  // a dirty count stays dirty: the cached value is not a valid base to add to
+  if (!is_dirty_) update_num_bits_set(num_bits_set_ + num_new_bits);
   return value_exists;
 }
 
